@@ -99,6 +99,32 @@ def assemble(scratch=None):
         f.write("\n#[cfg(kani)]\npub mod verif_spec;\n#[cfg(kani)]\npub mod verif_spy;\n")
     info["added"].append("src/verif_spec.rs, src/verif_spy.rs (cfg(kani) modules)")
 
+    # 1b. the shipped string front-ends become cfg(kani)-only modules of the crate (C19)
+    fronts = [("examples/simple.rs", "verif_front_simple", "front_simple.rs"),
+              ("fuzz/fuzz_targets/parse.rs", "verif_front_fuzz", "front_fuzz.rs")]
+    with open(librs, "a") as f:
+        f.write("\n#[cfg(kani)]\nextern crate self as minimal_lexical;\n")
+    for rel, modname, hfile in fronts:
+        src = os.path.join(scratch, rel)
+        hpath = os.path.join(VERIF, "kani_front", hfile)
+        if not os.path.exists(src):
+            raise Undecided("anchor-lost %s" % rel)
+        text = open(src).read()
+        # the ONLY thing dropped: the line `extern crate minimal_lexical;` (a library cannot name
+        # itself as an external crate; the alias above provides the same path)
+        text2 = re.sub(r"(?m)^extern crate minimal_lexical;\s*$", "// (dropped for in-crate verification) extern crate minimal_lexical;", text)
+        body = open(hpath).read() if os.path.exists(hpath) else ""
+        body = body.replace('include!("FRONT_COMMON");', open(os.path.join(VERIF, "kani_front", "front_common.inc")).read())
+        dst = os.path.join(scratch, "src", modname + ".rs")
+        with open(dst, "w") as f:
+            f.write(text2)
+            f.write("\n#[cfg(kani)]\n#[allow(unused_imports, dead_code, unused_variables, unused_mut)]\nmod verif_kani {\n    use super::*;\n")
+            f.write(body)
+            f.write("\n}\n")
+        with open(librs, "a") as f:
+            f.write("#[cfg(kani)]\n#[allow(dead_code, unused)]\npub mod %s;\n" % modname)
+        info["added"].append("src/%s.rs = verbatim copy of %s (minus its `extern crate minimal_lexical;` line) + mod verif_kani" % (modname, rel))
+
     # 2. contract attributes in front of the named functions
     cdir = os.path.join(VERIF, "contracts")
     for cf in sorted(os.listdir(cdir)) if os.path.isdir(cdir) else []:
